@@ -105,6 +105,11 @@ func runHistory(h []action, tape vsched.Tape) (res result) {
 	var outcome string
 	var invariant []string
 	var expectParked int64 = -1
+	// create/wrap actions interrupted by a quota kill before the program got
+	// hold of the coroutine: such a coroutine is unreachable and never
+	// started, its goroutine may already exist and then stays parked (it has
+	// not finished, failed or been closed: outside the property)
+	var lostCreations int64
 	// A coroutine that yields out of a callcontext leaves that context pushed
 	// (the known finding recorded for C05/C06): the context-depth invariant is
 	// only checked for histories without ctx/ctxm actions.
@@ -182,11 +187,12 @@ func runHistory(h []action, tape vsched.Tape) (res result) {
 		}
 		// final statuses
 		fin := env.Get(rt.StringValue("FINAL"))
-		term2 := rt.NewTerminationWith(nil, 1, false)
+		term2 := rt.NewTerminationWith(nil, 2, false)
 		if err := rt.Call(r.MainThread(), fin, nil, term2); err != nil {
 			outcome += " FINAL-failed " + err.Error()
 		} else if n, ok := term2.Get(0).TryInt(); ok {
 			expectParked = n
+			lostCreations, _ = term2.Get(1).TryInt()
 		}
 		// End-state invariants of the main thread and the runtime: nothing
 		// may leak from one call into the next.
@@ -220,7 +226,7 @@ func runHistory(h []action, tape vsched.Tape) (res result) {
 	res.consumed = pos
 	res.invariant = invariant
 	res.obs = fmt.Sprintf("%s | %s | live=%d", strings.Join(trace, " ; "), outcome, expectParked)
-	if res.rep.Deadlock == "" && len(res.rep.Panics) == 0 && !res.rep.Horizon && expectParked >= 0 && int64(res.rep.ParkedEnd) != expectParked {
+	if res.rep.Deadlock == "" && len(res.rep.Panics) == 0 && !res.rep.Horizon && expectParked >= 0 && (int64(res.rep.ParkedEnd) < expectParked || int64(res.rep.ParkedEnd) > expectParked+lostCreations) {
 		res.obs += fmt.Sprintf(" LEAK(parked goroutines=%d, live coroutines=%d: %s)", res.rep.ParkedEnd, expectParked, strings.Join(res.rep.ParkedWhat, ","))
 	}
 	return
@@ -449,7 +455,7 @@ var strRe = regexp.MustCompile(`s:"((?:[^"\\]|\\.)*)"`)
 var scriptStrings = map[string]bool{"start": true, "resume": true, "call": true, "pcallcall": true, "yield": true, "close": true,
 	"status": true, "info": true, "closing": true, "closing2": true, "tbc-exit": true, "tbc2-exit": true, "pcall": true, "ctx": true, "ctxm": true,
 	"h-resume": true, "h-status": true, "h-yield": true, "h-close": true, "h-other": true, "final": true, "stop": true,
-	"A": true, "B": true, "C": true, "M": true, "none": true, "unstarted": true, "suspended": true, "running": true, "normal": true, "dead": true,
+	"A": true, "B": true, "C": true, "M": true, "none": true, "unstarted": true, "unstarted-or-dead": true, "suspended": true, "running": true, "normal": true, "dead": true,
 	"create": true, "wrap": true, "return": true, "error": true, "errort": true, "tbc": true, "tbcres": true, "spin": true}
 var errRe = regexp.MustCompile(`^(?:[^:"]+:\d+: )?(E\d+)$`)
 
